@@ -363,8 +363,13 @@ pub fn run_plan(plan: &Plan, env: &mut Env, corpus: &Arc<Vec<String>>, forced: O
                 still = Instant::now();
                 asleep = None;
             }
-            if t0.elapsed().as_secs() > 180 {
-                println!("HARNESS-ERROR L2a: a plan ran for more than 180 s");
+            let limit = std::env::var("JBSIM_L2A_LIMIT").ok().and_then(|x| x.parse().ok()).unwrap_or(180u64);
+            if t0.elapsed().as_secs() > limit {
+                println!("HARNESS-ERROR L2a: a plan ran for more than {} s; scheduler state: {}", limit, sched.dump());
+                if std::env::var_os("JBSIM_L2A_HOLD").is_some() {
+                    eprintln!("HOLD pid {}", std::process::id());
+                    std::thread::sleep(std::time::Duration::from_secs(300));
+                }
                 std::process::exit(2);
             }
         }
